@@ -66,6 +66,7 @@ def check(P, rep):
             ok, _, w = mg(g, [e.node], (), edges(lt) + edges(by_true))
             rep.check(ok, 'C08.R3', 'rotate_signers:%s:latest-or-bypass' % e.kind, 'rotation effect must-guarded by bypass OR proof set is the latest: ' + e.describe()[:80],
                       esite(g, e), None, w)
+    storage_classes(P, rep, 'C08.R4', CN, {'Epoch': 'instance', 'EpochBySignersHash': 'persistent', 'PreviousSignerRetention': 'instance'})
     # R4 writers
     nw = 0
     for cn, en in P.all_entries():
